@@ -58,6 +58,18 @@ func runC05(c *fw.Ctx) {
 			tw := tw
 			check(tw.W, func() string { return doc.Text(tw.F) })
 		}
+		// the end of the input: the document without its final line end, and then with blanks or a
+		// comment after the last byte (a directive line, a parenthesis or the last line of a body)
+		if last := r.Lines[len(r.Lines)-1]; last.Kind != doc.LText && strings.HasSuffix(r.Text, "\n") {
+			bare := strings.TrimSuffix(r.Text, "\n")
+			for _, tail := range []string{"", " ", "\t", " \t ", " # c", "# c", " ### c ###", "\n\n", "\n  \n", "\n# c", "\n### c\n###"} {
+				tail := tail
+				if last.Kind == doc.LBody && strings.HasPrefix(tail, "#") {
+					continue // directly after the last byte of a body a comment needs a blank before it (as on every body line)
+				}
+				check(doc.Rewrite{Kind: "end-of-input", Line: len(r.Lines) - 1, Arg: tail}, func() string { return bare + tail })
+			}
+		}
 		if !c.Quick() && !strings.Contains(name, "+") && len(r.Lines) <= 14 {
 			// "all combinations of the listed rewritings": every unordered pair of single text rewrites
 			// at different places, and every single text rewrite together with a file-wide change of
